@@ -10,7 +10,18 @@ LEAK = ["--memory-leak-check"]
 def _n(lo, hi, tier="quick", **kw):
     return [dict(id="n%d" % n, defines=dict({"N": n}, **kw), tier=tier) for n in range(lo, hi + 1)]
 
+def _arr(tier, ns, eszs):
+    return [dict(id="n%d_esz%d" % (n, e), defines={"N": n, "ESZ": e}, tier=tier)
+            for n in ns for e in eszs]
+
 HARNESSES = [
+    dict(name="array", file="array.c", label="bounded(elements<=4)",
+         flags=LEAK, timeout=300, unwind=70,
+         cases=_arr("quick", (0, 1, 3), (4, 8)) + _arr("thorough", (2, 4), (1, 4, 8, 16))),
+    dict(name="array_frame", file="array_frame.c", label="bounded(elements<=4)",
+         mode="dfcc", enforce="array_init_copy", malloc_fail=True, native=False, cover=False,
+         timeout=300, unwind=70,
+         cases=_arr("quick", (1, 3), (8,)) + _arr("thorough", (2, 4), (4, 16))),
     dict(name="predef", file="predef.c", label="proved",
          fp={"destroy": ["hook_destroy", "c19_obj_destroy"], "copy": ["hook_copy"]},
          flags=LEAK, timeout=300),
@@ -22,4 +33,8 @@ HARNESSES = [
          fp={"destroy": ["id_table_destroy"], "copy": ["id_table_copy"]},
          flags=LEAK, timeout=300, unwind=20,
          cases=_n(0, 2) + _n(3, 4, "thorough")),
+    dict(name="meta_reader", file="meta_reader.c", label="proved",
+         fp={"destroy": ["meta_reader_destroy", "c19_obj_destroy"],
+             "copy": ["meta_reader_copy"], "read_at": "c19_unreachable_read_at", "do_block": "c19_unreachable_do_block"},
+         flags=LEAK, timeout=600),
 ]
